@@ -191,7 +191,7 @@ H("C13", "mapper", "c13_mapper_kernel_nopanic", what="mapper iterate_with_lines 
 
 H("C13", "stacktrace", "c13_classifiers_3", timeout=1800, what="parse_frame / parse_throwable never panic, parts are sub-slices; every valid-UTF-8 text of 3 bytes over the delimiter alphabet + a 2-byte character",
   vars="3 bytes", bound="3 bytes", functions=["stacktrace::parse_frame", "stacktrace::parse_throwable"], stubs=["core::slice::memchr::{memchr,memrchr} -> byte loops"])
-H("C13", "stacktrace", "c13_classifiers_5", tier="extra", timeout=1800, what="same, 5 bytes", vars="5 bytes", bound="5 bytes",
+H("C13", "stacktrace", "c13_classifiers_5", tier="thorough", timeout=1800, what="same, 5 bytes", vars="5 bytes", bound="5 bytes",
   functions=["stacktrace::parse_frame", "stacktrace::parse_throwable"], stubs=["core::slice::memchr::{memchr,memrchr} -> byte loops"])
 H("C13", "stacktrace", "c13_frame_template_6", tier="thorough", timeout=2400, what="`at ` + 6 symbolic bytes + `)`: parse_frame never panics; a returned frame is exactly the pieces of the line",
   vars="6 bytes", bound="10-byte lines of that shape", functions=["stacktrace::parse_frame"], stubs=["core::slice::memchr::{memchr,memrchr} -> byte loops"])
@@ -216,11 +216,11 @@ _c06 = dict(functions=["mapping::parse_proguard_record", "parse_proguard_header"
 H("C06", "mapping", "c06_step_any_3", timeout=2400, what="step (a)(b)(c), every slice of 1..3 arbitrary bytes", vars="3 bytes (all 256 values), length", bound="<=3 bytes", **_c06)
 H("C06", "mapping", "c06_step_header_4", timeout=2400, what="step, `#` + up to 4 arbitrary bytes", vars="4 bytes, length", bound="<=5 bytes", **_c06)
 H("C06", "mapping", "c06_step_sourcefile_3", tier="extra", timeout=3000, what="step, sourceFile JSON prefix + up to 3 arbitrary bytes (unterminated value, terminators inside)", vars="3 bytes, length", bound="33+3 bytes", **_c06)
-H("C06", "mapping", "c06_locality_any_3", tier="extra", timeout=3000, what="locality (d), every 3-byte slice", vars="3 bytes", bound="3 bytes", **_c06)
+H("C06", "mapping", "c06_locality_any_3", tier="thorough", timeout=3000, what="locality (d), every 3-byte slice", vars="3 bytes", bound="3 bytes", **_c06)
 H("C06", "mapping", "c06_locality_any_4", tier="extra", timeout=3000, what="locality (d), every 4-byte slice", vars="4 bytes", bound="4 bytes", **_c06)
-H("C06", "mapping", "c06_step_any_4", tier="extra", timeout=2400, what="step, 1..4 arbitrary bytes", vars="4 bytes, length", bound="<=4 bytes", **_c06)
+H("C06", "mapping", "c06_step_any_4", tier="thorough", timeout=2400, what="step, 1..4 arbitrary bytes", vars="4 bytes, length", bound="<=4 bytes", **_c06)
 H("C06", "mapping", "c06_step_any_5", tier="extra", timeout=3000, what="step, 1..5 arbitrary bytes", vars="5 bytes, length", bound="<=5 bytes", **_c06)
-H("C06", "mapping", "c06_step_member_4", tier="extra", timeout=2400, what="step, four-space indent + up to 4 arbitrary bytes", vars="4 bytes, length", bound="<=8 bytes", **_c06)
+H("C06", "mapping", "c06_step_member_4", tier="thorough", timeout=2400, what="step, four-space indent + up to 4 arbitrary bytes", vars="4 bytes, length", bound="<=8 bytes", **_c06)
 H("C06", "mapping", "c06_step_member_6", tier="extra", timeout=3000, what="step, four-space indent + up to 6 arbitrary bytes", vars="6 bytes, length", bound="<=10 bytes", **_c06)
 H("C06", "mapping", "c06_step_header_6", tier="extra", timeout=2400, what="step, `# ` + up to 6 arbitrary bytes", vars="6 bytes, length", bound="<=8 bytes", **_c06)
 H("C06", "mapping", "c06_step_sourcefile_5", tier="extra", timeout=2400, what="step, sourceFile prefix + up to 5 arbitrary bytes", vars="5 bytes, length", bound="33+5 bytes", **_c06)
@@ -262,7 +262,7 @@ H("C16", "java", "c16_tokenizer_len3", timeout=1800, what="all `(`+2 characters"
 H("C16", "java", "c16_tokenizer_len4", timeout=1800, what="all `(`+3 characters", vars="3 characters", bound="4-character strings", **_c16)
 H("C16", "java", "c16_tokenizer_len5", timeout=2400, what="all `(`+4 characters", vars="4 characters", bound="5-character strings", **_c16)
 H("C16", "java", "c16_tokenizer_utf8_names", tier="thorough", timeout=3600, what="`(L`+2 bytes+`;`+1 byte+`)V` incl. a 2-byte character in the class name: count and return slice", vars="3 bytes", bound="8-byte strings of that shape", **_c16)
-H("C16", "java", "c16_tokenizer_len6", tier="extra", timeout=3600, what="all `(`+5 characters", vars="5 characters", bound="6-character strings", **_c16)
+H("C16", "java", "c16_tokenizer_len6", tier="thorough", timeout=3600, what="all `(`+5 characters", vars="5 characters", bound="6-character strings", **_c16)
 
 # --------------------------------------------------------------------------- C19
 PROPS["C19"] = dict(
@@ -289,9 +289,9 @@ PROPS["C05"] = dict(
 )
 _c05 = dict(functions=["mapping::parse_proguard_record", "ProguardRecord::try_parse", "parse_proguard_header", "parse_proguard_field_or_method", "parse_proguard_class", "parse_usize", "parse_prefix", "parse_until*"],
             stubs=["core::str::from_utf8 -> from_utf8_model", "char::is_numeric -> is_numeric_model", "memchr/memrchr -> byte loops"], vars="identifier characters and digits of every hole", bound="one line")
-for _n, _t in [("class", "extra"), ("header_k", "quick"), ("class_crlf", "extra"), ("header_kv", "extra"), ("header_sourcefile", "extra"), ("field", "extra"), ("field_lf", "extra"),
+for _n, _t in [("class", "extra"), ("header_k", "quick"), ("class_crlf", "extra"), ("header_kv", "quick"), ("header_sourcefile", "extra"), ("field", "extra"), ("field_lf", "thorough"),
                ("method_plain", "extra"), ("method_noargs_class", "extra"), ("method_range", "extra"), ("method_range_os", "extra"), ("method_range_os_oe", "extra"), ("method_norange_os", "extra"),
-               ("bad_unspaced_arrow", "extra"), ("bad_class_no_colon", "extra"), ("bad_indent2", "extra"), ("bad_start_without_end", "extra"), ("bad_no_type", "extra"), ("bad_no_arrow", "extra")]:
+               ("bad_unspaced_arrow", "extra"), ("bad_class_no_colon", "extra"), ("bad_indent2", "extra"), ("bad_start_without_end", "extra"), ("bad_no_type", "thorough"), ("bad_no_arrow", "thorough")]:
     H("C05", "mapping", "c05_" + _n, tier=_t, timeout=3000, what="template " + _n, **_c05)
 H("C05", "mapping", "c05_parse_usize_20", tier="extra", timeout=3000, what="parse_usize on 1..20 symbolic digits: exact value or error on overflow", vars="20 digits, count", bound="<=20 digits",
   functions=["mapping::parse_usize"], stubs=["core::str::from_utf8 -> from_utf8_model", "char::is_numeric -> is_numeric_model"])
